@@ -27,7 +27,7 @@ use crate::{
 pub const DEF: PropDef = PropDef {
     id: "C05",
     groups,
-    rule: "injected: sample_size in 1..=2^32-1 (0 only with no samples), 0..=64 (sometimes up to 600) durations from a mixture (0, 1, runs of equal values, near 2^64, up to 2^100 ps), sparse per-sample allocation tallies, per kind no / constant / per-input counter values; \
+    rule: "injected: sample_size in 1..=2^32-1 (0 only with no samples), 0..=64 (sometimes up to 600) durations from a mixture (0, 1, runs of equal values, near 2^64, up to 2^100 ps), sparse per-sample allocation tallies, per kind no / constant / per-input counter values; loop: the real sample loop with cost tables, allocation scripts restricted by call and thread masks (sparse tallies in every pattern), tuned sizes and time budgets that end a run while tuning, samples derived from the trace; \
            non-trivial = >= 2 samples with a tie among durations, an even count, or sparse allocation info (some samples with, some without); the empty and singleton multisets are forced in as golden cases; distinct = distinct serialized case.",
     assumptions: &[
         "samples are injected into a real BenchContext through a cfg(divan_verif) hook; compute_stats and the painter are the production code",
@@ -449,7 +449,7 @@ fn golden() -> Vec<Case> {
 
 fn groups(g: &mut Groups) {
     g.enumerate("golden", |_| golden(), false, run_injected);
-    g.prop("injected", 60_000, 3_000_000, case(64), run_injected);
-    g.prop("injected_long", 1_500, 60_000, case(600), run_injected);
+    g.prop("injected", 60_000, 3_000_000, || case(64), run_injected);
+    g.prop("injected_long", 1_500, 60_000, || case(600), run_injected);
     super::c05_loop::groups(g);
 }
